@@ -511,7 +511,50 @@ def rule_multi_a_one_key_order(ctx: Ctx, rep: Report) -> None:
     rep.floor(rule, 2)
 
 
+def rule_every_input_visited(ctx: Ctx, rep: Report) -> None:
+    """C10.every_input_visited: "any number of inputs": the roles of a psbt (combine,
+    sign, finalize, extract, the validators, the size estimate) walk
+    `psbt.inputs` and `psbt.outputs` to the end -- no loop over them has a
+    `break` or a `return` in its body. What is skipped is skipped with
+    `continue`: a `break` at an input that is already finalized leaves every
+    input after it unfinalized, silently."""
+    rule = "C10.every_input_visited"
+    n = 0
+    for q, fi in sorted(ctx.prog.functions.items()):
+        if not (q.startswith("btclib.psbt.") or q.startswith("btclib.psbt_signer.")):
+            continue
+        for lp in own_nodes(fi.node):
+            if not (isinstance(lp, ast.For) and any(norm(x).endswith((".inputs", ".outputs")) for x in ast.walk(lp.iter) if isinstance(x, ast.Attribute))):
+                continue
+            out = [x for b in lp.body for x in ast.walk(b) if isinstance(x, (ast.Break, ast.Return))
+                   and not any(isinstance(p_, (ast.For, ast.While, ast.FunctionDef, ast.Lambda)) and p_ is not lp and any(x is y for y in ast.walk(p_)) for b2 in lp.body for p_ in ast.walk(b2))]
+            n += 1
+            rep.ob(rule, f"{q}:L{lp.lineno - fi.node.lineno}", not out, fi.where(out[0] if out else lp), "walked to the end" if not out else
+                   f"the loop over `{norm(lp.iter)[:40]}` is left at `{norm(out[0])[:30]}` (line {out[0].lineno}): the inputs after that one are never looked at")
+    rep.floor(rule, 15)
+
+
+def rule_watch_only_means_no_private_key(ctx: Ctx, rep: Report) -> None:
+    """C10.watch_only_means_no_private_key: a signer refuses to sign when it is
+    watch-only, and it is watch-only when it holds *no* private key:
+    `SoftwareSigner.is_watch_only` is `not any(... is_private ...)`. With
+    `not all`, a signer holding one xprv account and one xpub account refuses
+    to sign for the account it has the key of."""
+    from sa import values as VX
+    rule = "C10.watch_only_means_no_private_key"
+    fi = ctx.func("btclib.psbt_signer.SoftwareSigner.is_watch_only")
+    vx = VX.of(fi)
+    bb: dict[str, str] = {}
+    ok = (vx.returns("not any($$g)", bb) and "is_private" in bb.get("$$g", "") and "not " not in bb["$$g"]) or \
+         (vx.returns("all($$g)", bb) and "not " in bb.get("$$g", "") and "is_private" in bb["$$g"])
+    rep.ob(rule, "SoftwareSigner.is_watch_only", ok, fi.where(), "no key is private" if ok else f"`{norm(vx.ret)[:80] if vx.ret is not None else '?'}` is not `no key is private`")
+    rep.floor(rule, 1)
+
+
 RULES = [
+    ("C10.every_input_visited", rule_every_input_visited),
+    ("C10.watch_only_means_no_private_key", rule_watch_only_means_no_private_key),
+
     ("C10.cltv_own_sequence", rule_cltv_own_sequence),
     ("C10.tapscript_table_complete", rule_tapscript_table_complete),
     ("C10.multi_a_one_key_order", rule_multi_a_one_key_order),
